@@ -102,7 +102,20 @@ def _scenario(rng):
     variables with a dimension of their own; (b) masked variables carrying packing attributes through operations that
     store derived arrays (eval, reorderDimensions, file arithmetic, legacy slice_dim); (c) IOAPI files constructed with
     their own TFLAG (from_arrays(..., TFLAG=...), hand-built + updatemeta) and what is derived from them"""
-    k = rng.choice(['getvar', 'getvar', 'packed', 'packed', 'ioapi_tflag'])
+    k = rng.choice(['getvar', 'getvar', 'packed', 'packed', 'ioapi_tflag', 'evalshape', 'ioapi_addvar', 'maskshare'])
+    if k == 'evalshape':
+        # eval with its default arguments where the first variable named has fewer dimensions than the result
+        return dict(family='scenario', kind=k, nt=rng.randint(1, 2), nl=rng.randint(1, 3), ny=rng.randint(1, 2), nx=rng.randint(1, 3),
+                    expr=rng.choice(['WGT = np.asarray(lev)[None, :, None, None] / 2. * TEMP', 'N = float(AREA.max()) ** -1 * TEMP',
+                                     'Q = TEMP * 2', 'M = np.asarray(AREA)[None, None, :, :] * TEMP']), coords=rng.random() < 0.5)
+    if k == 'ioapi_addvar':
+        # a variable is added to an existing IOAPI file before operations that are built on a full copy
+        return dict(family='scenario', kind=k, seed=rng.randrange(1 << 30), how=rng.choice(['create', 'copyvar']),
+                    ops=[rng.choice(['copy', 'renamedim', 'subset', 'applyrow', 'mask']) for _ in range(rng.randint(1, 2))])
+    if k == 'maskshare':
+        # mask() of a file with declared coordinates, then an in-place dimension rename on either file: both stay well-formed
+        return dict(family='scenario', kind=k, n0=rng.randint(1, 3), n1=rng.randint(1, 3), which=rng.choice(['input', 'result']),
+                    coordsarg=rng.random() < 0.3)
     if k == 'getvar':
         nt, nx, ny = rng.randint(1, 3), rng.randint(1, 3), rng.randint(1, 3)
         coords = rng.sample(['time', 'x', 'y'], rng.randint(1, 3))      # dimension coordinates that exist
@@ -131,7 +144,7 @@ def _impl_scenario(c):
 
     def rec(g, label):
         st = dict(step=label, wf=_wf(g))
-        if c['kind'] == 'ioapi_tflag':
+        if c['kind'] in ('ioapi_tflag', 'ioapi_addvar'):
             st['tstep_unlimited'] = bool(g.dimensions['TSTEP'].isunlimited()) if 'TSTEP' in g.dimensions else None
         states.append(st)
     with lib.pnc_warnings(), np.errstate(all='ignore'):
@@ -168,6 +181,68 @@ def _impl_scenario(c):
                 elif c['then'] == 'slice':
                     d0 = list(g.dimensions)[0]
                     rec(g.sliceDimensions(**{d0: 0}), 'slice %s' % d0)
+            elif c['kind'] == 'evalshape':
+                f = pnc.PseudoNetCDFFile()
+                for dk, n in (('time', c['nt']), ('lev', c['nl']), ('lat', c['ny']), ('lon', c['nx'])):
+                    f.createDimension(dk, n)
+                lv = f.createVariable('lev', 'd', ('lev',))
+                lv[:] = np.arange(c['nl']) + 1.
+                ar = f.createVariable('AREA', 'd', ('lat', 'lon'))
+                ar[:] = 2.
+                tv = f.createVariable('TEMP', 'd', ('time', 'lev', 'lat', 'lon'))
+                tv[:] = np.arange(c['nt'] * c['nl'] * c['ny'] * c['nx']).reshape(c['nt'], c['nl'], c['ny'], c['nx'])
+                if c['coords']:
+                    f.setCoords(['lev'])
+                rec(f, 'source')
+                rec(f.eval(c['expr']), 'eval ' + c['expr'])
+            elif c['kind'] == 'ioapi_addvar':
+                import random as _r
+                from . import c10
+                rr = _r.Random(c['seed'])
+                src = c10._src(rr)
+                src.update(kind='arrays', withcf=False)
+                f, _ = c10.build(src)
+                rec(f, 'source')
+                k0 = [k_ for k_ in f.variables if k_ != 'TFLAG'][0]
+                if c['how'] == 'create':
+                    nv = f.createVariable('NEWV', 'f', f.variables[k0].dimensions)
+                    nv[...] = 1
+                    nv.units = 'ppm'.ljust(16)
+                    nv.long_name = 'NEWV'.ljust(16)
+                    nv.var_desc = 'NEWV'.ljust(80)
+                else:
+                    f.copyVariable(f.variables[k0], key='NEWV')
+                rec(f, 'added a variable (%s)' % c['how'])
+                for op in c['ops']:
+                    if op == 'copy':
+                        f = f.copy()
+                    elif op == 'renamedim':
+                        f = f.renameDimensions(ROW='ROW')       # a call built on a full copy that renames nothing
+                    elif op == 'subset':
+                        f = f.subsetVariables([k0, 'NEWV'])
+                    elif op == 'applyrow':
+                        f = f.applyAlongDimensions(ROW='mean')
+                    else:
+                        f = f.mask(greater=1e30)
+                    rec(f, op)
+            elif c['kind'] == 'maskshare':
+                f = pnc.PseudoNetCDFFile()
+                f.createDimension('lat', c['n0'])
+                f.createDimension('lon', c['n1'])
+                for dk, n in (('lat', c['n0']), ('lon', c['n1'])):
+                    cv = f.createVariable(dk, 'd', (dk,))
+                    cv[:] = np.arange(n) * 1.5
+                dv = f.createVariable('D', 'd', ('lat', 'lon'))
+                dv[:] = np.arange(c['n0'] * c['n1']).reshape(c['n0'], c['n1'])
+                f.setCoords(['lat', 'lon'])
+                g = f.mask(greater=2, coords=c['coordsarg'])
+                rec(g, 'mask')
+                if c['which'] == 'input':
+                    f.renameDimension('lat', 'y', inplace=True)
+                else:
+                    g.renameDimensions(lon='x', inplace=True)
+                rec(f, 'input after the in-place rename of the %s' % c['which'])
+                rec(g, 'mask result after the in-place rename of the %s' % c['which'])
             elif c['kind'] == 'packed':
                 f = pnc.PseudoNetCDFFile()
                 f.createDimension('a', c['n0'])
